@@ -1427,3 +1427,38 @@ mod tests {
   //   child.join().unwrap();
   // }
 }
+
+// Verification wrappers (see /verif/DESIGN.md). Compiled only with `--cfg rustdds_verif`.
+#[cfg(rustdds_verif)]
+impl DPEventLoop {
+  pub(crate) fn verif_add_local_reader(&mut self, reader_ing: ReaderIngredients) {
+    self.add_local_reader(reader_ing);
+  }
+  pub(crate) fn verif_add_local_writer(&mut self, writer_ing: WriterIngredients) {
+    self.add_local_writer(writer_ing);
+  }
+  pub(crate) fn verif_update_participant(&mut self, participant_guid_prefix: GuidPrefix) {
+    self.update_participant(participant_guid_prefix);
+  }
+  pub(crate) fn verif_remote_participant_lost(&mut self, participant_guid_prefix: GuidPrefix) {
+    self.remote_participant_lost(participant_guid_prefix);
+  }
+  pub(crate) fn verif_remote_reader_discovered(&mut self, remote_reader: &DiscoveredReaderData) {
+    self.remote_reader_discovered(remote_reader);
+  }
+  pub(crate) fn verif_remote_reader_lost(&mut self, reader_guid: GUID) {
+    self.remote_reader_lost(reader_guid);
+  }
+  pub(crate) fn verif_remote_writer_discovered(&mut self, remote_writer: &DiscoveredWriterData) {
+    self.remote_writer_discovered(remote_writer);
+  }
+  pub(crate) fn verif_remote_writer_lost(&mut self, writer_guid: GUID) {
+    self.remote_writer_lost(writer_guid);
+  }
+  pub(crate) fn verif_reader(&self, entity_id: EntityId) -> Option<&Reader> {
+    self.message_receiver.available_readers.get(&entity_id)
+  }
+  pub(crate) fn verif_writer(&self, entity_id: EntityId) -> Option<&Writer> {
+    self.writers.get(&entity_id)
+  }
+}
